@@ -190,14 +190,16 @@ def type_of(n, desugar=True):
 
 # --------------------------------------------------------------------------- pass 1
 
-def annotate(root):
+def annotate(root, st=None):
     """Resolve clang's delta-encoded locations.  `file` is emitted only when it differs
     from the previously printed location, `line` only when file or line differ, so the
     whole document has to be visited in order.  Every AST node gets
        _loc = (file, line) of its `loc`   (expansion point), or None
        _beg = (file, line) of range.begin (expansion point), or None
-       _tok = (offset, tokLen, is_macro) of range.begin's expansion point."""
-    st = [None, 0]
+       _tok = (offset, tokLen, is_macro) of range.begin's expansion point.
+    `st` = [file, line] is the printer state carried in (and updated in place)."""
+    if st is None:
+        st = [None, 0]
 
     def bare(d):
         f = d.get("file")
@@ -261,6 +263,89 @@ def annotate(root):
         n["_tok"] = tok
 
     node(root)
+    return st
+
+
+_BARE_FILE = re.compile(rb'"offset": \d+,\s*"file": "((?:[^"\\]|\\.)*)"')
+_INNER_OPEN = b'\n  "inner": [\n'
+_INNER_CLOSE = b"\n  ]\n}"
+
+
+def load_chunked(data, libdir):
+    """Parse only those top-level declarations that can contain a location inside libdir.
+
+    clang pretty-prints one top-level declaration per `    {` ... `    }` block.  A block
+    is skipped iff the location state on entry is outside libdir and no location in the
+    block names a file in libdir; then no node of the block is located in libdir.  For a
+    skipped block the printer state is advanced to its last printed file / line.
+    Returns None if the layout is not the expected one (the caller then parses fully)."""
+    if not re.match(r"^[A-Za-z0-9_./+-]+$", libdir):
+        return None
+    prefix = libdir.encode() + b"/"
+    h = data.find(_INNER_OPEN)
+    t = data.rfind(_INNER_CLOSE)
+    if h < 0 or t < h or data[t + len(_INNER_CLOSE):].strip() != b"":
+        return None
+    try:
+        root = json.loads(data[:h].rstrip().rstrip(b",") + b"\n}")
+    except ValueError:
+        return None
+    if not isinstance(root, dict) or "inner" in root:
+        return None
+    # block boundaries: "\n    {\n" ... "\n    }" followed by ",\n" or by the closing "\n  ]\n}"
+    starts, ends = [], []
+    pos = h + len(_INNER_OPEN) - 1
+    while True:
+        if data[pos:pos + 7] != b"\n    {\n":
+            return None
+        e = data.find(b"\n    }", pos + 7, t + 6)
+        if e < 0:
+            return None
+        starts.append(pos + 1)
+        ends.append(e + 1)
+        if e + 6 == t:
+            break
+        if data[e + 6:e + 8] != b",\n":
+            return None
+        pos = e + 7
+    st = annotate(root)
+    inner = []
+    for s, e in zip(starts, ends):
+        wanted = st[0] is not None and st[0].startswith(libdir + "/")
+        last = None
+        if not wanted:
+            for m in _BARE_FILE.finditer(data, s, e):
+                if m.group(1).startswith(prefix):
+                    wanted = True
+                    break
+                last = m
+        if wanted:
+            node = json.loads(data[s:e + 5])
+            annotate(node, st)
+            inner.append(node)
+        else:
+            if last is not None:
+                st[0] = json.loads(b'"' + last.group(1) + b'"')
+            j = data.rfind(b'"line": ', s, e)
+            if j >= 0:
+                m = re.compile(rb"\d+").match(data, j + 8)
+                if m is None:
+                    return None
+                st[1] = int(m.group(0))
+    root["inner"] = inner
+    return root
+
+
+def load_ast(data, libdir):
+    """clang's JSON -> annotated AST (possibly without irrelevant system declarations)."""
+    if os.environ.get("CENSUS_FULL_PARSE") != "1":
+        root = load_chunked(data, libdir)
+        if root is not None:
+            return root
+    root = json.loads(data)
+    if isinstance(root, dict):
+        annotate(root)
+    return root
 
 
 # --------------------------------------------------------------------------- pass 2
@@ -872,18 +957,18 @@ def analyse(args):
     if p.returncode != 0:
         raise CensusError("clang failed (%d) on %s:\n%s" %
                           (p.returncode, path, p.stderr.decode("utf-8", "replace")[-2000:]))
-    try:
-        root = json.loads(p.stdout)
-    except ValueError as e:
-        raise CensusError("bad JSON from clang for %s: %s" % (path, e))
+    data = p.stdout
     del p
-    if not isinstance(root, dict) or root.get("kind") != "TranslationUnitDecl":
-        raise CensusError("unexpected AST root for %s" % path)
     result = {}
 
     def work():
         try:
-            annotate(root)
+            try:
+                root = load_ast(data, libdir)
+            except ValueError as e:
+                raise CensusError("bad JSON from clang for %s: %s" % (path, e))
+            if not isinstance(root, dict) or root.get("kind") != "TranslationUnitDecl":
+                raise CensusError("unexpected AST root for %s" % path)
             result["ok"] = TU(libdir, src, root).run()
         except BaseException as e:      # re-raised in the caller
             result["err"] = e
@@ -1039,7 +1124,7 @@ def main():
     ap.add_argument("-j", type=int, default=0, help="parallel clang jobs (default: all sources)")
     a = ap.parse_args()
     repo = os.environ.get("REPO") or "/repo"
-    libdir = os.path.join(repo, "lib")
+    libdir = os.path.abspath(os.path.join(repo, "lib"))
     if not os.path.isdir(libdir):
         raise CensusError("no such directory: %s" % libdir)
     jobs = [(libdir, s, False) for s in C_SOURCES] + [(libdir, s, True) for s in CXX_SOURCES]
